@@ -107,6 +107,10 @@ FORMS = [
     ("obj.run({0})", P_ATOM, [P_TERN]), ("self.m({0}, {1})", P_ATOM, [P_TERN, P_TERN]), ("f(*{0})", P_ATOM, [P_BOR]),
     ("{0}.v", P_ATOM, [P_ATOM]), ("{0}.w.v", P_ATOM, [P_ATOM]), ("{0}[{1}]", P_ATOM, [P_ATOM, P_TERN]),
     ("{0}[{1}:{2}]", P_ATOM, [P_ATOM, P_TERN, P_TERN]), ("{0}({1})", P_ATOM, [P_ATOM, P_TERN]),
+    # slices with different sets of bounds (optional ast fields present / absent)
+    ("{0}[{1}:]", P_ATOM, [P_ATOM, P_TERN]), ("{0}[:{1}]", P_ATOM, [P_ATOM, P_TERN]), ("{0}[::{1}]", P_ATOM, [P_ATOM, P_TERN]),
+    ("{0}[{1}::{2}]", P_ATOM, [P_ATOM, P_TERN, P_TERN]), ("{0}[:{1}:{2}]", P_ATOM, [P_ATOM, P_TERN, P_TERN]),
+    ("{0}[:]", P_ATOM, [P_ATOM]),
     ("[{0}, {1}]", P_ATOM, [P_TERN, P_TERN]), ("({0}, {1})", P_ATOM, [P_TERN, P_TERN]),
     ("{{{0}: {1}}}", P_ATOM, [P_TERN, P_TERN]), ("lambda q: {0}", P_LAMBDA, [P_TERN]),
     ("[{0} for q in {1}]", P_ATOM, [P_TERN, P_OR]), ("sum({0} for q in {1})", P_ATOM, [P_TERN, P_OR]),
